@@ -102,6 +102,15 @@ def build_site(params):
     else:
         hosts['a.test']['/robots.txt'] = robots_page(rb)
     starts = ['http://a.test/']
+    if params.get('flap'):
+        # several start URLs on one origin (workers may each ask for robots.txt before the
+        # first answer is in), and a server that answers only the first request for
+        # robots.txt with the rules: the rules that were obtained stay in force
+        for i in range(2, 2 + params['flap']):
+            hosts['a.test']['/s%d' % i] = {'links': ['/priv/f%d' % i, '/open/f%d' % i]}
+            hosts['a.test']['/priv/f%d' % i] = {'links': []}
+            hosts['a.test']['/open/f%d' % i] = {'links': []}
+            starts.append('http://a.test/s%d' % i)
     if params.get('redir'):
         hosts['b.test'] = {'/priv/y': {'links': []}, '/open': {'links': []},
                            '/robots.txt': robots_page(ROBOTS['prefix'])}
@@ -158,7 +167,18 @@ def run(params, chooser):
                 events.append(('delivered', conn.idx))
         ar.net.on_deliver = on_deliver
 
-    ar = AppRun(site, argv, chooser, early=params.get('early', True))
+    strategy = None
+    if params.get('flap'):
+        seen_robots = [0]
+
+        def strategy(peer, conn, req):
+            if req['target'] == '/robots.txt' and req['headers'].get('host') == 'a.test':
+                seen_robots[0] += 1
+                if seen_robots[0] > 1:
+                    return {'status': 404, 'body': 'gone'} if params.get('flap_to', 404) == 404 \
+                        else {'raw': 'garbage, not HTTP\r\n\r\n', 'close': True}
+            return None
+    ar = AppRun(site, argv, chooser, early=params.get('early', True), strategy=strategy)
 
     def on_quiescent():
         trans[0] += 1
@@ -279,6 +299,11 @@ def jobs(tier, seed):
             if tier == 'quick' and conc == 2 and rb not in ('prefix', 'big', 'groups'):
                 budget = 0
             js.append(dict(params=dict(robots=rb, conc=conc), budget=budget, prefix=[]))
+    for flap_to in (404, 'garbage'):
+        js.append(dict(params=dict(robots='prefix', conc=2, flap=1, flap_to=flap_to), budget=1,
+                       prefix=[]))
+        js.append(dict(params=dict(robots='prefix', conc=3, flap=2, flap_to=flap_to),
+                       budget=0 if tier == 'quick' else 1, prefix=[]))
     for rb in ('prefix-nonl', 'allowin'):
         js.append(dict(params=dict(robots=rb, serve='redirect-body', conc=1), budget=0,
                        prefix=[]))
